@@ -147,9 +147,13 @@ def lean_phase(mod, broken, info):
         info["driver_built"] = rc == 0
         if rc != 0:
             broken.append({"kind": "build", "name": "build:upverif-driver", "detail": out[-3000:]})
-        rc, out = sh(["lake", "build", module], cwd=LEAN, timeout=2400)
+        # EXTRA_PROPS: further modules of theorems for the same property (Props/CxxFoo.lean), built and audited alike
+        extra = list(getattr(mod, "EXTRA_PROPS", None) or [])
+        rc, out = sh(["lake", "build", module] + extra, cwd=LEAN, timeout=2400)
         info["props_built"] = rc == 0
         thms = theorems_of(module)
+        for em in extra:
+            thms += theorems_of(em)
         info["theorems"] = thms
         if rc != 0:
             failing = sorted(set(re.findall(r"error: (\S+\.lean):(\d+)", out)))
@@ -159,7 +163,10 @@ def lean_phase(mod, broken, info):
             return
         # 3. audit: source grep + axioms
         bad = []
-        for m in lean_closure(module):
+        closure = lean_closure(module)
+        for em in extra:
+            closure += [m for m in lean_closure(em) if m not in closure]
+        for m in closure:
             path = os.path.join(LEAN, *m.split(".")) + ".lean"
             for i, l in enumerate(strip_comments(open(path).read()).splitlines(), 1):
                 if FORBIDDEN.search(l):
@@ -169,7 +176,7 @@ def lean_phase(mod, broken, info):
         os.makedirs(os.path.join(LEAN, ".lake", "audit"), exist_ok=True)
         apath = os.path.join(LEAN, ".lake", "audit", f"{mod.ID}.lean")
         with open(apath, "w") as f:
-            f.write(f"import {module}\n" + "".join(f"#print axioms {t}\n" for t in thms))
+            f.write("".join(f"import {m}\n" for m in [module] + extra) + "".join(f"#print axioms {t}\n" for t in thms))
         rc, out = sh(["lake", "env", "lean", apath], cwd=LEAN, timeout=600)
         axioms, discharged = set(), []
         flat = re.sub(r"\s+", " ", out)
@@ -521,7 +528,8 @@ def main():
         log(f"VIOLATION property={pid} replay={path} no-failing-input-found")
         return 1
     if tier == "thorough" and getattr(mod, "LEANCHECKER", True):
-        rc, out = sh(["lake", "env", "leanchecker", getattr(mod, "LEAN_MODULE", "UPVerif.Props." + pid)], cwd=LEAN, timeout=1800)
+        rc, out = sh(["lake", "env", "leanchecker", getattr(mod, "LEAN_MODULE", "UPVerif.Props." + pid)]
+                     + list(getattr(mod, "EXTRA_PROPS", None) or []), cwd=LEAN, timeout=1800)
         log(f"leanchecker: rc={rc} {out[-200:]}")
         if rc != 0:
             path = write_replay(pid, None, {"broken": [{"name": "leanchecker", "detail": out[-2000:]}]})
